@@ -114,4 +114,3 @@ func lemmaUnit(ld *Loader, cs *ContractSet, l *Lemma) (u *Unit) {
 	u.Assumps = g.assumps
 	return u
 }
-
